@@ -363,7 +363,7 @@ class Server(Component):
         user = self.users[target]
 
         if message.add_nick:
-            message.args.insert(0, user.nick or '')
+            message.args.insert(0, user.nick or '*')
 
         if message.prefix is None:
             message.prefix = self.host
